@@ -40,7 +40,24 @@ extern "C" int select(int nfds, fd_set *r, fd_set *w, fd_set *e, struct timeval 
 	if ((++n_select & 0xFFFF) == 0) vclock++;      // a send loop that can never finish still times out
 	return real(nfds, r, w, e, &z);
 }
-extern "C" unsigned int sleep(unsigned int s) { vclock += s ? s : 1; return 0; }
+static int g_in_send = 0, g_eagain_next = 0, g_synthetic = 0, g_short_left = 0; static size_t g_short = 0; static unsigned long n_short = 0;
+// (the back-pressure of the short-write seam resolves before the virtual clock moves: send time-outs, which leave a partial
+// message on the stream, are outside the model; a genuine EAGAIN of the socket still lets the clock run)
+extern "C" unsigned int sleep(unsigned int s) { if (!g_synthetic) vclock += s ? s : 1; g_synthetic = 0; return 0; }
+// back-pressure on the sending side: while a Send call runs, a write() takes at most g_short octets and the next
+// write() finds the socket full once (EAGAIN), at most 8 times per Send call; what reaches the wire must be the same
+// octets all the same
+typedef ssize_t (*write_fn)(int, const void *, size_t);
+extern "C" ssize_t write(int fd, const void *buf, size_t n) {
+	static write_fn real = (write_fn)dlsym(RTLD_NEXT, "write");
+	if (g_in_send && g_short && fd > 2) {
+		if (g_eagain_next) { g_eagain_next = 0; g_synthetic = 1; errno = EAGAIN; return -1; }
+		if (n > g_short && g_short_left > 0) { n = g_short; g_eagain_next = 1; g_short_left--; n_short++; }
+	}
+	ssize_t r = real(fd, buf, n);
+	if (r < 0) g_synthetic = 0;          // a genuine refusal: the clock runs
+	return r;
+}
 typedef gcry_error_t (*kdf_fn)(const void *, size_t, int, int, const void *, size_t, unsigned long, size_t, void *);
 extern "C" gcry_error_t gcry_kdf_derive(const void *pass, size_t passlen, int algo, int subalgo, const void *salt,
 	size_t saltlen, unsigned long iterations, size_t keysize, void *keybuffer) {
@@ -151,8 +168,10 @@ struct Exec {
 		}
 		ev["vs"] = jv; ev["sv"] = jsv; ev["nd"] = jnd;
 		bool ok;
+		g_in_send = 1; g_eagain_next = 0; g_short_left = 8;
 		if (arr) { std::vector<mpz_srcptr> mv; for (size_t k = 0; k < vals.size(); k++) mv.push_back(vals[k].v); ok = P[a]->aio()->Send(mv, b); }
 		else ok = P[a]->aio()->Send(vals[0].v, b);
+		g_in_send = 0;
 		ev["ok"] = ok;
 		// what did the sender write?
 		std::vector<unsigned char> got; unsigned char tmp[65536];
@@ -397,8 +416,15 @@ static int run_random(unsigned long seed, long execs, const char *outp, long fir
 		if (chunked && variant == "select" && shape >= 3 && shape <= 5) shape = 8;   // the delimiter logic exists only here: more mixed traffic
 		size_t arrsize = (shape >= 6 && shape <= 8) ? 1 + rnd(3) : 0;
 		bool uni = (shape == 6 || shape == 7);
-		bool faulty = auth && rnd(100) < 45 && shape != 8;
-		json extra; extra["src"] = "random"; extra["seed"] = seed; extra["k"] = xi; extra["uni"] = uni; extra["shape"] = shape;
+		// trickle executions: the transport never hands over more than a few octets at a time and the receiver looks after
+		// every hand-over, so that no read() ever returns a whole IV, tag or line
+		static const size_t trsizes[] = {1, 2, 3, 7, 15};
+		size_t trickle = (rnd(4) == 0) ? trsizes[rnd(5)] : 0;
+		bool faulty = auth && !trickle && rnd(100) < 45 && shape != 8;   // (a link stopped by a rewrite is no longer read: octet-sized writes would fill its socket)
+		// short writes: in one of five executions the sender's socket takes only a few octets at a time
+		static const size_t shsizes[] = {1, 5, 15, 16, 33, 100, 300};
+		g_short = (rnd(5) == 0) ? shsizes[rnd(7)] : 0;
+		json extra; extra["shortw"] = g_short; extra["trickle"] = trickle; extra["src"] = "random"; extra["seed"] = seed; extra["k"] = xi; extra["uni"] = uni; extra["shape"] = shape;
 		Exec x(n, variant, auth, enc, chunked, &out, extra);
 		// plan: number of Send calls per link
 		std::vector<std::vector<int> > left(n, std::vector<int>(n, 0));
@@ -434,7 +460,9 @@ static int run_random(unsigned long seed, long execs, const char *outp, long fir
 				size_t k;
 				switch (rnd(6)) { case 0: k = 1; break; case 1: k = 1 + rnd(3); break; case 2: k = 1 + rnd(40); break;
 					case 3: k = 1 + rnd(have); break; case 4: k = have; break; default: k = 1 + rnd(120); break; }
+				if (trickle) k = 1 + rnd(trickle);
 				x.move(a, b, k);
+				if (trickle) { std::vector<size_t> none; if (arrsize) x.recvarr(b, arrsize, aiounicast::aio_scheduler_direct, a, none); else x.recv(b, aiounicast::aio_scheduler_direct, a, none); }
 			} else if (c < 60 && faultsleft > 0) {
 				size_t a = rnd(n), b = rnd(n);
 				for (int t = 0; t < 20 && x.L[a][b].wire.empty(); t++) { a = rnd(n); b = rnd(n); }
@@ -453,11 +481,19 @@ static int run_random(unsigned long seed, long execs, const char *outp, long fir
 				if (arrsize) x.recvarr(b, arrsize, sched, who, picks); else x.recv(b, sched, who, picks);
 			}
 		}
+		if (trickle) {
+			std::vector<size_t> none;
+			for (size_t a = 0; a < n; a++) for (size_t b = 0; b < n; b++) for (int it = 0; it < 20000 && !x.L[a][b].wire.empty(); it++) {
+				if (x.move(a, b, 1 + rnd(trickle)) == 0) break;
+				if (arrsize) x.recvarr(b, arrsize, aiounicast::aio_scheduler_direct, a, none); else x.recv(b, aiounicast::aio_scheduler_direct, a, none);
+			}
+		}
 		x.drain(arrsize);
 		total += x.nevents;
 	}
 	out.close();
-	printf("{\"executions\":%ld,\"events\":%ld,\"selects\":%lu}\n", execs, total, n_select);
+	g_short = 0;
+	printf("{\"executions\":%ld,\"events\":%ld,\"selects\":%lu,\"short_writes\":%lu}\n", execs, total, n_select, n_short);
 	return 0;
 }
 
